@@ -782,4 +782,40 @@ def t_class_defaults(ck, ctx, module_prefix="simple_ddl_parser.output"):
             ck.ob("T-SHARED-DEFAULT", f"{c.name}.{name}", not bad,
                   "a mutable class-level default is shared by every table object and every run",
                   f"{c.module.path}:{node.lineno}")
+    # mutable default ARGUMENTS of package functions: one object per function, shared by every call - harmless only while the
+    # parameter is merely read (iterated, tested, indexed); stored, returned, placed into a result or mutated it leaks between
+    # statements, tables and runs
+    for f in ctx.model.all_funcs():
+        a = f.node.args
+        pos = a.posonlyargs + a.args
+        pairs = list(zip(pos[len(pos) - len(a.defaults):], a.defaults)) + [(p, d) for p, d in zip(a.kwonlyargs, a.kw_defaults) if d is not None]
+        for p_, d in pairs:
+            mutable = isinstance(d, (ast.List, ast.Dict, ast.Set, ast.ListComp, ast.DictComp, ast.SetComp)) or (
+                isinstance(d, ast.Call) and isinstance(d.func, ast.Name) and d.func.id in ("list", "dict", "set", "defaultdict", "OrderedDict"))
+            if not mutable:
+                continue
+            escapes = None
+            parents = {}
+            for x in ast.walk(f.node):
+                for c_ in ast.iter_child_nodes(x):
+                    parents[c_] = x
+            for x in ast.walk(f.node):
+                if isinstance(x, ast.Name) and x.id == p_.arg and isinstance(x.ctx, ast.Load):
+                    par = parents.get(x)
+                    if isinstance(par, (ast.For, ast.comprehension)) and getattr(par, "iter", None) is x:
+                        continue
+                    if isinstance(par, ast.Compare) or isinstance(par, (ast.If, ast.IfExp, ast.BoolOp, ast.UnaryOp, ast.While)):
+                        continue
+                    if isinstance(par, ast.Subscript) and par.value is x and isinstance(par.ctx, ast.Load):
+                        continue
+                    if isinstance(par, ast.Call) and isinstance(par.func, ast.Name) and par.func.id in ("len", "sorted", "any", "all", "sum", "min", "max", "enumerate", "tuple", "frozenset") and x in par.args:
+                        continue
+                    if isinstance(par, ast.Attribute) and par.value is x and par.attr in ("get", "items", "keys", "values", "index", "count", "copy"):
+                        continue
+                    escapes = par
+                    break
+            n += 1
+            ck.ob("T-SHARED-DEFAULT", f"{f.qual}({p_.arg}={ast.unparse(d)})", escapes is None,
+                  "a mutable default argument is one object shared by every call; here it is stored, returned, passed on or mutated" +
+                  ("" if escapes is None else f" ({ast.unparse(escapes)[:70]})"), f.loc(p_))
     return n
